@@ -5,6 +5,7 @@ CONSTANTS
   ExtraLoads <- Extra
   SkipForms <- DynSkips
   Templates <- Tpl
+  PrevDocs <- NoPrev
   MaxStmts = 4
 INVARIANT C19_ExactObject
 INVARIANT C19_SameConfigurable
